@@ -214,7 +214,9 @@ def convert_into(ex, v, target_ty, src_ty):
     prog = ex.prog
     tshort = strip_generics(strip_lifetimes(target_ty)).strip()
     vt = rt_name(ex, v)
-    if vt is not None and (vt == tshort or vt.split('::')[-1] == tshort.split('::')[-1]): return v
+    tyc0 = prog.canon_type(tshort) if re.match(r'^[\w:]+$', tshort) else tshort
+    if vt is not None and vt == tyc0: return v
+    if vt is not None and prog.typedef(tyc0) is None and vt.split('::')[-1] == tshort.split('::')[-1]: return v
     last = tshort.split('::')[-1]
     if last == 'String':
         return string_of(items_of(ex, v))
